@@ -22,7 +22,7 @@ use zeroize::Zeroizing;
 
 use crate::{
     crypto::sym::SymmetricKeyAlgorithm,
-    errors::{bail, Error, Result},
+    errors::{bail, ensure_eq, Error, Result},
     types::Seipdv1ReadMode,
     util::{fill_buffer, fill_buffer_bytes},
 };
@@ -133,6 +133,16 @@ where
         key: &[u8],
         ciphertext: R,
     ) -> Result<Self> {
+        // Some ciphers (Blowfish, CAST5) take keys of variable length, and map keys of different
+        // lengths to the same key schedule. A session key is only right if it has the key size of
+        // the algorithm.
+        ensure_eq!(
+            key.len(),
+            alg.key_size(),
+            "Unexpected session key length for {:?}",
+            alg
+        );
+
         match alg {
             SymmetricKeyAlgorithm::Plaintext => {
                 bail!("'Plaintext' is not a legal cipher for encrypted data")
